@@ -514,8 +514,11 @@ def oracle(payload, obs_cache=None):
 
 # ----------------------------------------------------------------------------- generators
 def gen_stub(rng, small=True):
-    return {"seed": int(rng.integers(0, 2**31 - 1)), "nt": int(rng.integers(1, 4)), "ntv": int(rng.integers(3, 6 if small else 10)),
-            "nq": int(rng.integers(1, 4)), "na": int(rng.integers(1, 3))}
+    st = {"seed": int(rng.integers(0, 2**31 - 1)), "nt": int(rng.integers(1, 4)), "ntv": int(rng.integers(3, 6 if small else 10)),
+          "nq": int(rng.integers(1, 4)), "na": int(rng.integers(1, 3))}
+    if st["nq"] == 1 and st["na"] == 1:
+        st["na"] = 2          # one q-point and one atom: every mode is a Γ-acoustic one, the phonon part (and the adiabatic gap) is identically 0
+    return st
 
 
 def gen_strain(rng, ntv, kind=None, delta=None):
